@@ -27,12 +27,13 @@ def rust_lines(s):
     return out
 
 
-def check_diagnostics(errs, files, fault_file=None, fault_line=None):
+def check_diagnostics(errs, files, fault_file=None, fault_line=None, consequences_elsewhere=False):
     """files: {path: text}. Returns list of (clause violated, detail)."""
     bad = []
     if not errs:
         return [('rejection-without-diagnostic', '')]
     lines_on_fault = False
+    other_files, fault_file_named = [], False
     for e in errs:
         rows = e.split('\n')
         hdr = None
@@ -52,7 +53,9 @@ def check_diagnostics(errs, files, fault_file=None, fault_line=None):
         if text is None:
             bad.append(('names-no-given-file', hdr.group(1))); continue
         if fault_file is not None and path != fault_file:
-            bad.append(('names-other-file', f'{path} instead of {fault_file}'))
+            other_files.append(path)
+        elif fault_file is not None:
+            fault_file_named = True
         ls = rust_lines(text)
         if hdr.group(2):
             ln, col = int(hdr.group(2)), int(hdr.group(3))
@@ -72,14 +75,84 @@ def check_diagnostics(errs, files, fault_file=None, fault_line=None):
                     bad.append(('quoted-line-not-verbatim', f'{n}: {txt[:50]!r} vs {ls[n - 1][:50]!r}'))
                 if fault_line is not None and n == fault_line:
                     lines_on_fault = True
+    # a diagnostic in ANOTHER file: wrong, unless the fault breaks a declaration that the other file uses (then the use site may be
+    # reported as well, as long as the faulty file is named too)
+    if other_files and not (consequences_elsewhere and fault_file_named):
+        bad.append(('names-other-file', f'{other_files[0]} instead of {fault_file}'))
     if fault_line is not None and not lines_on_fault and not bad:
-        bad.append(('fault-line-not-mentioned', f'line {fault_line}'))
+        # the checker identifies structurally equal expressions: a diagnostic about the injected text may be placed at an equal
+        # expression elsewhere (listed finding). That case gets a clause of its own so that it cannot hide other misplacements.
+        clause = 'fault-line-not-mentioned'
+        ftext = rust_lines(files.get(fault_file, ''))[fault_line - 1] if fault_file in files and fault_line <= len(rust_lines(files[fault_file])) else ''
+        for e in errs:
+            rows = e.split('\n')
+            for a, b in zip(rows, rows[1:]):
+                q = QUOTED.match(a)
+                if q and set(b.strip()) == {'^'}:
+                    col = len(b) - len(b.lstrip(' ')) - (len(a) - len(q.group(2)))
+                    span = q.group(2)[col:col + len(b.strip())]
+                    if len(span) >= 1 and span in ftext and int(q.group(1)) != fault_line:
+                        clause = 'fault-reported-at-an-equal-expression-elsewhere'
+        bad.append((clause, f'line {fault_line}'))
     return bad
 
 
+# programs with multi-line strings / doc-strings ABOVE the code that receives the faults (line numbers must not drift after them)
+TEXT_BASES = {
+    'module-docstring': '"""\nModule documentation.\n"""\ndef a: Int := 1\ndef b: Int := a + 1\nprint(b)\n',
+    'module-docstring-one-line-then-multi': '"""one line"""\n"""\ntwo\nlines\n\n"""\ndef a: Int := 1\ndef b: Int := a + 1\nprint(b)\n',
+    'class-docstring': 'class K\n    """\n    doc of K\n    """\n    def v: Int := 1\n\ndef k := K()\ndef a: Int := k.v\nprint(a)\n',
+    'function-docstring': 'def f(x: Int) -> Int =>\n    """\n    doc\n    """\n    x + 1\n\ndef a: Int := f(1)\nprint(a)\n',
+    'multi-line-string-ending-in-newline': 'def s := "first\nsecond\n"\ndef t: Int := 3\ndef u: Int := t + 1\nprint(u)\nprint(s)\n',
+    'multi-line-string': 'def s := "first\n   second"\ndef t: Int := 3\ndef u: Int := t + 1\nprint(u)\n',
+    'multi-line-interpolated-string': 'def n := 2\ndef s := "a {n}\n  b {n + 1}\n"\ndef t: Int := 3\ndef u: Int := t + 1\nprint(u)\n',
+    'empty-string-and-docstring': 'def e := ""\n"""\n"""\ndef t: Int := 3\ndef u: Int := t + 1\nprint(u)\n',
+    'crlf-docstring': '"""\r\ndoc\r\n"""\r\ndef a: Int := 1\r\ndef b: Int := a + 1\r\nprint(b)\r\n',
+}
+_LONG = 'def unrelated: Int := 10\n\ndef other: Int := unrelated + 1\n\nprint(other)\n\ndef scale(x: Int) -> Int => x * other\n\n'
+SHORT_USER = {
+    'type-alias': ([('a.mamba', _LONG + 'type Meters: Int when self >= 0\n\ndef double(m: Meters) -> Int => m + m\n'),
+                    ('b.mamba', 'from a import Meters\n\ndef half(m: Meters) -> Int => m // 2\n')], 'a.mamba', 9, ': Int when', ': Intt when'),
+    'class-parent': ([('a.mamba', _LONG + 'class Narrow(def w: Int)\nclass Wide(w: Int): Narrow(w)\n    def more(self) -> Int => 1\n'),
+                      ('b.mamba', 'from a import Wide\n\ndef mk() -> Wide => Wide(1)\n')], 'a.mamba', 10, ': Narrow(w)', ': Narow(w)'),
+    'class-parent-user-first': ([('a.mamba', 'from b import Wide\n\ndef mk() -> Wide => Wide(1)\n'),
+                                 ('b.mamba', _LONG + 'class Narrow(def w: Int)\nclass Wide(w: Int): Narrow(w)\n    def more(self) -> Int => 1\n')], 'b.mamba', 10, ': Narrow(w)', ': Narow(w)'),
+}
+
+
 # ------------------------------------------------------------------------------------ fault injection
+# ill-typed statements put on a line of their own: each is reported by another part of the checker
+TYPE_FAULTS = {'type': 'def zq: Int := "bad"', 'type-undefined-name': 'print(zq_undefined)', 'type-none': 'def zq: Int := None', 'type-undefined-function': 'def zq: Int := zq_nofun(1)',
+               'type-operand': 'def zq := 1 + "s"', 'type-undefined-method': 'def zq := "s".zq_nomethod()', 'type-reassign-undefined': 'zq_nowhere := 1'}
+
 def code_lines(src):
-    return [i for i, l in enumerate(src.split('\n')) if l.strip() and not l.strip().startswith('#')]
+    """0-based indices of lines that hold code and are not part of a string that spans lines (at their start or their end)."""
+    open_at = set()
+    state = None        # None, '"' or '"""'
+    line = 0
+    i = 0
+    while i < len(src):
+        c = src[i]
+        if c == '\n':
+            if state:
+                open_at.add(line); open_at.add(line + 1)
+            line += 1; i += 1; continue
+        if state is None:
+            if src.startswith('"""', i):
+                state = '"""'; i += 3; continue
+            if c == '"':
+                state = '"'; i += 1; continue
+            if c == '#':
+                while i < len(src) and src[i] != '\n':
+                    i += 1
+                continue
+        else:
+            if c == '\\' and state == '"':
+                i += 2; continue
+            if src.startswith(state, i):
+                i += len(state); state = None; continue
+        i += 1
+    return [i for i, l in enumerate(src.split('\n')) if l.strip() and not l.strip().startswith('#') and i not in open_at]
 
 
 def inject(src, i, kind, r):
@@ -109,7 +182,14 @@ def inject(src, i, kind, r):
             pos = ind + r.choice(cands)
         lines[i] = l[:pos] + tok + l[pos:]
         return '\n'.join(lines), i + 1
-    if kind == 'type':
+    if kind == 'undefined-parent':
+        # the parent named on a class header does not exist
+        m = re.match(r'(\s*class \w+(?:\([^)]*\))?: )(\w+)(.*)$', l)
+        if not m or m.group(2) == 'Exception':
+            return None
+        lines[i] = m.group(1) + m.group(2) + 'Zq' + m.group(3)
+        return '\n'.join(lines), i + 1
+    if kind in TYPE_FAULTS:
         # a wrongly typed local on a line of its own, after line i, indented like the following code line
         nxt = next((x for x in lines[i + 1:] if x.strip()), None)
         ni = len(nxt) - len(nxt.lstrip(' ')) if nxt is not None else 0
@@ -122,7 +202,7 @@ def inject(src, i, kind, r):
         # inside match/handle arm lists or class bodies a statement is not allowed
         if nxt is not None and ni > ind and re.match(r'\s*(match\b|.*\bhandle$)', l):
             return None
-        lines.insert(i + 1, ' ' * ni + 'def zq: Int := "bad"')
+        lines.insert(i + 1, ' ' * ni + TYPE_FAULTS[kind])
         return '\n'.join(lines), i + 2
     if kind == 'truncation':
         # the last statement cut short so that the parser runs into the end of input
@@ -150,15 +230,16 @@ def judge(w, files, part, origin, fault_file=None, fault_line=None, kind=None):
     stage = (st.get('errs') or [{}])[0].get('stage', '?') if st.get('k') == 'err' else '?'
     part.count('stage:' + stage)
     fmap = {p: s for p, s in files}
-    bad = check_diagnostics(res.get('errs', []), fmap, fault_file, fault_line)
+    bad = check_diagnostics(res.get('errs', []), fmap, fault_file, fault_line, consequences_elsewhere=(kind or '').startswith('undefined-parent'))
     # localisation is judged for injected faults of the intended kind only (a lexical fault must be found by the lexer ...)
     if kind in ('lexical', 'syntactic', 'truncation') and stage != 'parse':
-        bad = [b for b in bad if b[0] != 'fault-line-not-mentioned']
+        bad = [b for b in bad if b[0] not in ('fault-line-not-mentioned', 'fault-reported-at-an-equal-expression-elsewhere')]
     wit = {'kind': 'diagnostics', 'origin': origin, 'files': files, 'fault': kind, 'fault_file': fault_file, 'fault_line': fault_line, 'stage': stage,
            'diagnostics': [e[:700] for e in res.get('errs', [])][:3]}
     if bad:
         for clause, detail in {b[0]: b[1] for b in bad}.items():
-            part.violation(f'{clause}:{stage}:{kind or "fuzz"}', dict(wit, detail=detail))
+            # the equal-expression defect is one defect whatever statement was injected
+            part.violation(f'{clause}:{stage}' if clause.startswith('fault-reported-at-an-equal') else f'{clause}:{stage}:{kind or "fuzz"}', dict(wit, detail=detail))
     else:
         part.held((stage, kind or 'fuzz', len(files)))
         if part.evaluations % 400 == 1:
@@ -169,7 +250,8 @@ def shard(i, n, nprog, nfuzz):
     w = Worker(watchdog=60); part = Partial()
     k = 0
     progs = []
-    cells = sweeps.cells()
+    # the line-based fault injector assumes one statement per line: the attached-layout cells are left out
+    cells = [c for c in sweeps.cells() if not c[0].endswith('/attached')]
     for kk, (cell, prog) in enumerate(cells):
         if kk % 23 == common.SEED % 23:
             progs.append(('sweep:' + cell, lang.to_mamba(prog)))
@@ -179,6 +261,7 @@ def shard(i, n, nprog, nfuzz):
         src = lang.to_mamba(prog)
         if len(src.split('\n')) <= 40:
             progs.append((f'generated:{j}', src))
+    progs += [('text:' + name, src) for name, src in TEXT_BASES.items()]
     for origin, src in progs:
         r = rng(PROP, 'faults', origin)
         # "an otherwise valid program": faults are only injected into programs the pipeline accepts
@@ -186,7 +269,7 @@ def shard(i, n, nprog, nfuzz):
             part.count('base-program-not-accepted')
             continue
         for li in code_lines(src):
-            for kind in ('lexical', 'syntactic', 'type', 'truncation'):
+            for kind in ('lexical', 'syntactic', 'truncation', 'undefined-parent') + tuple(r.sample(sorted(TYPE_FAULTS), 3)):
                 k += 1
                 if k % n != i:
                     continue
@@ -198,6 +281,16 @@ def shard(i, n, nprog, nfuzz):
                     text, fl = inj
                     judge(w, [('prog.mamba', text + tail)], part, origin, 'prog.mamba', fl, kind)
                     part.count('fault:' + kind)
+    # a declaration with an unresolvable parent in a long file, used by a SHORT file: positions must stay inside the file they name
+    for name, (files, ffile, fline, good, badtxt) in SHORT_USER.items():
+        k += 1
+        if k % n != i:
+            continue
+        if w.pipe(files, annotate=False).get('k') != 'ok':
+            part.count('base-program-not-accepted'); continue
+        faulty = [(p_, ('\n'.join(l.replace(good, badtxt) if x + 1 == fline else l for x, l in enumerate(s_.split('\n'))) if p_ == ffile else s_)) for p_, s_ in files]
+        judge(w, faulty, part, 'short-user-file:' + name, ffile, fline, 'undefined-parent')
+        part.count('fault:short-user-file')
     # multi-file: fault in file k of n
     for j in range(max(4, nprog // 4)):
         k += 1
@@ -207,7 +300,7 @@ def shard(i, n, nprog, nfuzz):
         proj = projects.generate(r)
         files = proj['files']
         for fi in range(len(files)):
-            for kind in ('lexical', 'syntactic', 'type'):
+            for kind in ('lexical', 'syntactic', 'undefined-parent') + tuple(r.sample(sorted(TYPE_FAULTS), 2)):
                 cl = code_lines(files[fi][1])
                 li = r.choice(cl)
                 inj = inject(files[fi][1].rstrip('\n'), li, kind, r)
@@ -290,7 +383,7 @@ def main(tier):
     nprog, nfuzz = (40, 6000) if tier == 'quick' else (1500, 300000)
     for d in run_shards(shard, (nprog, nfuzz)):
         rep.merge(d)
-    floors = [('>= 1500 injected faults rejected and judged', sum(rep.cov.get('fault:' + k, 0) for k in ('lexical', 'syntactic', 'type', 'truncation')) >= 1500),
+    floors = [('>= 1500 injected faults rejected and judged', sum(v for k, v in rep.cov.items() if k.startswith('fault:')) >= 1500),
               ('parse, check and context stages all seen as rejecting stage', all(rep.cov.get('stage:' + s, 0) > 0 for s in ('parse', 'check', 'context'))),
               ('>= 30 multi-file faults', rep.cov.get('multi-file-faults', 0) >= 30), ('>= 3000 rejected inputs judged', rep.cov.get('rejected', 0) >= 3000)]
     return rep.finish(floors)
